@@ -20,7 +20,7 @@ RULE = (
     "swapped for '!' renames, 'not set' on an inverted alias -> =y); two fresh instances loading S_old and S_new have equal "
     "snapshots, equal user values and equal missing_syms, and no old name with a defined replacement is in missing_syms.  "
     "Block clauses: the file written with write_deprecated=True loads (default flags) to the same configuration as the same "
-    "file with the block cut out; with load_deprecated=True the main-section values are unchanged and each block entry "
+    "file with the block cut out (also when further assignments follow the block); with load_deprecated=True the main-section values are unchanged and each block entry "
     "evaluates, through eval_string, to the value that was written.  Non-trivial = S_old assigns through an old name a value "
     "different from the replacement's default, with an inversion or a conflicting new-name line in the same file.  Distinct = SHA-1."
 )
@@ -200,6 +200,17 @@ def check(case) -> Result:
                         break
                 if sorted(a.missing_syms) != sorted(b.missing_syms):
                     res.fail("block|missing-syms", f"deprecated block changes missing_syms: {a.missing_syms} vs {b.missing_syms}")
+                # settings appended to a written file (or concatenated fragments): the skipped block must end where it ends
+                stage = "reload-appended"
+                f_full2, f_cut2 = os.path.join(d, "sdkconfig.plus"), os.path.join(d, "sdkconfig.cut.plus")
+                open(f_full2, "w").write(text + s_new)
+                open(f_cut2, "w").write(cut + s_new)
+                a2 = _fresh(tree, d, parser, rpaths)
+                a2.load_config(f_full2)
+                b2 = _fresh(tree, d, parser, rpaths)
+                b2.load_config(f_cut2)
+                if kc.snapshot(a2) != kc.snapshot(b2) or kc.user_state(a2) != kc.user_state(b2):
+                    res.fail("block|swallows-what-follows", "assignments appended after the deprecated block are not loaded like the same assignments appended to the file without the block")
                 stage = "reload-with-block"
                 c = _fresh(tree, d, parser, rpaths)
                 c.load_config(f_full, load_deprecated=True)
